@@ -666,30 +666,38 @@ Definition hist_get (mem_kind : bool) (h : list (list Z)) (i : Z) : res (option 
   else Ok (Some (nth (Z.to_nat i) h [])).
 
 (* Walk *)
+(* the move itself, once the line being entered has been saved *)
+Definition h_walk_to (mem_kind : bool) (e : ed) (pos : Z) : res ed :=
+  let n := zlen (hist e) in
+  (* walking down past the most recent line lands on the line being entered *)
+  let pos := if (0 <? hpos e) && (hpos e + pos <? 0) then - hpos e else pos in
+  let e := set_hist e (hpos e + pos) (hcpos e) in
+  if hpos e <? -1 then Ok (set_hist e (-1) (hcpos e))
+  else if hpos e =? 0 then Ok (h_restore_line e)
+  else
+    let e := if n <? hpos e then set_hist e n (hcpos e) else e in
+    let u := cur_undo e in
+    match rev (u_items u) with
+    | (l, _) :: _ => Ok (h_set_line_match e l)
+    | [] =>
+      do g <- hist_get mem_kind (hist e) (n - hpos e);
+      match g with
+      | None => Ok e
+      | Some l => Ok (h_set_line_match e l)
+      end
+    end.
+
 Definition h_walk (mem_kind : bool) (e : ed) (pos : Z) : res ed :=
   let n := zlen (hist e) in
   if n =? 0 then Ok e
+  else if pos =? 0 then Ok e
   else if (hpos e =? n) && (pos =? 1) then Ok e
   else
     do e <- (if (hpos e =? -1) && (0 <? pos) then
                do e1 <- h_save (set_undo e (lines e) false (undoing e));
                Ok (set_hist e1 0 (-1))
              else Ok e);
-    let e := set_hist e (hpos e + pos) (hcpos e) in
-    if hpos e <? -1 then Ok (set_hist e (-1) (hcpos e))
-    else if hpos e =? 0 then Ok (h_restore_line e)
-    else
-      let e := if n <? hpos e then set_hist e n (hcpos e) else e in
-      let u := cur_undo e in
-      match rev (u_items u) with
-      | (l, _) :: _ => Ok (h_set_line_match e l)
-      | [] =>
-        do g <- hist_get mem_kind (hist e) (n - hpos e);
-        match g with
-        | None => Ok e
-        | Some l => Ok (h_set_line_match e l)
-        end
-      end.
+    h_walk_to mem_kind e pos.
 
 (* Sources.Write for one source + Accept *)
 Definition h_accept (e : ed) (hold inf : bool) (err : Z) (max_entries : Z) (mem_kind : bool) : res ed :=
